@@ -657,7 +657,7 @@ impl TypedScenario for C02Rows {
     fn budget(&self, tier: Tier) -> usize {
         match tier {
             Tier::Quick => 99 + 300,
-            Tier::Thorough => 99 + 20_000,
+            Tier::Thorough => 99 + 100_000,
         }
     }
     fn generate(&self, seed: u64, index: usize, _tier: Tier) -> RowsPlan {
